@@ -207,6 +207,17 @@ def event_world(seed, twins=True):
                 w.make_read(chrom, mir, truth={"src": gid + ".t1", "class": "micro-intron-retained-in-terminal-exon-" + side})
                 w.make_read(chrom, fake, truth={"src": gid + ".t1", "class": "fake-terminal-exon-" + side})
             p0 = e[-1][1] + rng.randint(2500, 3500)
+    # a 3-base terminal read exon, all of its bases mismatching, whose splice site lies 6 bp inside the neighbouring annotated intron (jitter
+    # within delta with errors next to the junction: the annotated site would be forced, but it lies BEYOND the end of the read)
+    comp_ = {"A": "C", "C": "A", "G": "T", "T": "G"}
+    for g in [g_ for g_ in w.genes if g_.id.startswith("T") and not g_.id.startswith("TINY")]:
+        t = g.transcripts[0]
+        ex = list(t.exons)
+        # left: first read exon = 3 bases starting 4 bp after the end of the isoform's first exon
+        r = w.make_read(t.chrom, [(ex[0][1] + 4, ex[0][1] + 6)] + ex[1:4], truth={"src": t.id, "class": "three-base-first-exon-off-by-6"})
+        r.seq = "".join(comp_.get(c_, "A") for c_ in r.seq[:3]) + r.seq[3:]
+        r = w.make_read(t.chrom, ex[1:4] + [(ex[4][0] - 6, ex[4][0] - 4)], truth={"src": t.id, "class": "three-base-last-exon-off-by-6"})
+        r.seq = r.seq[:-3] + "".join(comp_.get(c_, "A") for c_ in r.seq[-3:])
     # three-exon genes with a 24-44 bp middle exon; reads that skip it and whose one outer site lies 3-5 bp inside the neighbouring exon
     # (the short-read based rule "one long intron = two short-read introns around a micro-exon" needs one of the outer sites to differ);
     # eight loci per sequence, because the rule walks a SET of short-read introns in hash order
@@ -334,6 +345,7 @@ def run(chk, scratch):
             for st in ("none", "all", "default_ont"):
                 jobs.append((chk.seed * 100 + si, "rich", st, "nanopore", True))
             jobs.append((chk.seed * 100 + si, "event", "default_ont", "nanopore", False))
+            jobs.append((chk.seed * 100 + si, "event", "none", "pacbio_ccs", False))
             jobs.append((chk.seed * 100 + si, "event", ("default_ont/--delta 0", "all/--delta 2", "default_pacbio/--delta 0")[si % 3], "nanopore", True))
     else:
         for k, st in enumerate(strategies):
@@ -341,6 +353,7 @@ def run(chk, scratch):
         jobs.append((chk.seed * 100 + 1, "rich", "all", "nanopore", True))
         jobs.append((chk.seed * 100, "event", "default_ont/--delta 0", "nanopore", True))
         jobs.append((chk.seed * 100, "event", "default_ont", "nanopore", False))
+        jobs.append((chk.seed * 100, "event", "none", "nanopore", False))        # 'none' switches the short-read based correction off as well
     worlds = {}
     for key in sorted(set((j[0], j[1]) for j in jobs)):
         seed, kind = key
